@@ -178,6 +178,10 @@ func Run(a Matrix, args ...interface{}) (Matrix, Matrix, Matrix, error) {
   if computeU {
     if inSitu.U == nil {
       inSitu.U = NullDenseMatrix(t, m, m)
+    } else {
+      if n1, m1 := inSitu.U.Dims(); n1 != m || m1 != m {
+        return nil, nil, nil, fmt.Errorf("U has invalid dimension (%dx%d instead of %dx%d)", n1, m1, m, m)
+      }
     }
     inSitu.U.SetIdentity()
   } else {
@@ -186,6 +190,10 @@ func Run(a Matrix, args ...interface{}) (Matrix, Matrix, Matrix, error) {
   if computeV {
     if inSitu.V == nil {
       inSitu.V = NullDenseMatrix(t, n, n)
+    } else {
+      if n1, m1 := inSitu.V.Dims(); n1 != n || m1 != n {
+        return nil, nil, nil, fmt.Errorf("V has invalid dimension (%dx%d instead of %dx%d)", n1, m1, n, n)
+      }
     }
     inSitu.V.SetIdentity()
   } else {
